@@ -7,6 +7,7 @@ Open Scope Z_scope.
 #[local] Arguments lookup_pseudo : simpl never.
 #[local] Arguments shift_name_new : simpl never.
 #[local] Arguments pseudo_sem : simpl never.
+#[local] Opaque big_fuel.
 
 (* ------------------------------------------------------------------ *)
 (* induction over expressions (the argument list of a call is nested) *)
@@ -227,3 +228,112 @@ Proof.
 Qed.
 
 End Expand.
+
+(* ------------------------------------------------------------------ *)
+(* 3. compiled equations (xtring)                                      *)
+(* ------------------------------------------------------------------ *)
+Section Xtring.
+Variable C : carrier.
+Notation V := (val C).
+Hypothesis Rth : ring_theory (vnum C 0 0) (vnum C 1 0) (vadd C) (vmul C) (vsub C) (vneg C) eq.
+Add Ring Vring2 : Rth.
+
+Section Generic.
+Context {N : Type}.
+Variable rho : N -> Z -> V.
+
+(* -(lhs) glued in front of the bare rhs text *)
+Lemma graft_sem (n r : cexpr N) t : sem C rho (graft n r) t = vadd C (sem C rho n t) (sem C rho r t).
+Proof.
+  induction r using cexpr_ind'; try reflexivity.
+  destruct o; try reflexivity; simpl; rewrite IHr1; simpl; ring.
+Qed.
+
+Lemma residual_sem (l r : cexpr N) t :
+  sem C rho (residual l r) t = vsub C (sem C rho r t) (sem C rho l t).
+Proof. unfold residual. rewrite graft_sem. simpl. ring. Qed.
+
+Definition tails_value (t : Z) (base : V) (tails : list (bool * cexpr N)) : V :=
+  fold_left (fun acc (st : bool * cexpr N) => if fst st then vadd C acc (sem C rho (snd st) t) else vsub C acc (sem C rho (snd st) t))
+            tails base.
+
+Lemma add_tails_sem (base : cexpr N) tails t :
+  sem C rho (add_tails base tails) t = tails_value t (sem C rho base t) tails.
+Proof.
+  unfold add_tails, tails_value. revert base.
+  induction tails as [|[b e] r IH]; intros base; simpl; [reflexivity|].
+  rewrite IH. destruct b; reflexivity.
+Qed.
+End Generic.
+
+(* every transition shock e stands for e + ant_e in a dynamic transition equation *)
+Definition rho_ant (shocks : list string) (rho : string -> Z -> V) : string -> Z -> V :=
+  fun n k => if mem_s n shocks then vadd C (rho n k) (rho (append ant_prefix n) k) else rho n k.
+
+Lemma ant_subst_sem shocks (rho : string -> Z -> V) (e : sexpr) :
+  forall t, sem C rho (ant_subst shocks e) t = sem C (rho_ant shocks rho) e t.
+Proof.
+  induction e using cexpr_ind'; intros t; simpl.
+  - unfold rho_ant. destruct (mem_s n shocks); reflexivity.
+  - reflexivity.
+  - rewrite IHe1, IHe2. reflexivity.
+  - rewrite IHe. reflexivity.
+  - f_equal. rewrite map_map. apply map_ext_Forall. eapply Forall_impl; [| exact H]. simpl. intros a Ha. apply Ha.
+  - apply IHe.
+  - destruct (lookup_pseudo pseudo_resolution f) as [[p dfl]|].
+    + apply pseudo_sem_ext. intros j. apply IHe.
+    + rewrite IHe. reflexivity.
+Qed.
+
+Lemma ant_rho_no_shocks (rho : string -> Z -> V) : forall n k, rho_ant [] rho n k = rho n k.
+Proof. reflexivity. Qed.
+
+(* names -> quantity ids *)
+Section Names.
+Context {N M : Type}.
+Variable f : N -> option M.
+Variable X : M -> Z -> V.
+Definition rho_names : N -> Z -> V := fun n k => match f n with Some m => X m k | None => vnum C 0 0 end.
+
+Lemma map_names_sem (e : cexpr N) : forall x, map_names f e = Some x ->
+  forall t, sem C X x t = sem C rho_names e t.
+Proof.
+  induction e using cexpr_ind'; intros x Hx t; simpl in Hx.
+  - unfold rho_names. simpl. destruct (f n); inversion Hx; reflexivity.
+  - inversion Hx; reflexivity.
+  - destruct (map_names f e1) eqn:E1; [|discriminate]. destruct (map_names f e2) eqn:E2; [|discriminate].
+    inversion Hx; subst. simpl. rewrite (IHe1 _ eq_refl), (IHe2 _ eq_refl). reflexivity.
+  - destruct (map_names f e) eqn:E1; [|discriminate]. inversion Hx; subst. simpl. rewrite (IHe _ eq_refl). reflexivity.
+  - match type of Hx with match ?G args with _ => _ end = _ => set (go := G) in * end.
+    destruct (go args) as [args'|] eqn:Eg; [|discriminate]. inversion Hx; subst. simpl. f_equal.
+    clear Hx. revert args' Eg. induction H as [|a l Ha Hl IH]; intros args' Eg.
+    + simpl in Eg. inversion Eg. reflexivity.
+    + simpl in Eg. destruct (map_names f a) eqn:Ea; [|discriminate].
+      destruct (go l) eqn:El; [|discriminate]. inversion Eg; subst. simpl.
+      rewrite (Ha _ eq_refl). f_equal. apply IH. reflexivity.
+  - destruct (map_names f e) eqn:E1; [|discriminate]. inversion Hx; subst. simpl. apply (IHe _ eq_refl).
+  - destruct (map_names f e) eqn:E1; [|discriminate]. inversion Hx; subst. simpl.
+    destruct (lookup_pseudo pseudo_resolution f0) as [[p dfl]|].
+    + apply pseudo_sem_ext. intros j. apply (IHe _ eq_refl).
+    + rewrite (IHe _ eq_refl). reflexivity.
+Qed.
+End Names.
+
+(* the data a compiled equation reads: X qid date;  names are looked up in id order *)
+Definition rho_model (names shocks : list string) (X : Z -> Z -> V) : string -> Z -> V :=
+  rho_ant shocks (rho_names (fun n => index_of n names 0) X).
+
+(* Theorem 3: the compiled equation denotes rhs - lhs of the equation as written after macro
+   expansion (l, r), with every transition shock of a dynamic transition equation read as
+   shock + anticipated shock *)
+Theorem xtring_sem cx subs be names shocks s l r x :
+  side_written cx subs be s = Some (l, r) ->
+  compile_side cx subs be names shocks s = Some x ->
+  forall (X : Z -> Z -> V) t,
+    sem C X x t = vsub C (sem C (rho_model names shocks X) r t) (sem C (rho_model names shocks X) l t).
+Proof.
+  intros Hw Hc X t. unfold compile_side in Hc. rewrite Hw in Hc.
+  rewrite (map_names_sem _ X _ _ Hc t), strip_sem, residual_sem, !ant_subst_sem. reflexivity.
+Qed.
+
+End Xtring.
